@@ -234,3 +234,28 @@ Ltac nfstep :=
   | |- nofail (ReadBlk _ _ _) => apply nfBlk; intros ? ? ?
   | |- nofail (match ?x with Some _ => _ | None => _ end) => let E := fresh "E" in destruct x eqn:E
   end.
+
+(* ---------------------------------------------------------------- running on a known datagram *)
+Definition byte_at (d : list N) (o : N) : N := nth (N.to_nat o) d 0.
+Definition g16le (d : list N) (o : N) : N := byte_at d o + 256 * byte_at d (o + 1).
+Definition g16be (d : list N) (o : N) : N := 256 * byte_at d o + byte_at d (o + 1).
+
+Lemma rd_byte_at d i : i < len d -> rd d i = Some (byte_at d i).
+Proof. unfold rd, byte_at, len. intros H. apply nth_error_nth'. lia. Qed.
+Lemma byte_at_lt d i : bytes_ok d = true -> byte_at d i < 256.
+Proof.
+  intros Hb. destruct (N.ltb_spec i (len d)) as [H|H].
+  - exact (bytes_ok_rd _ _ _ Hb (rd_byte_at d i H)).
+  - unfold byte_at, len in *. rewrite nth_overflow by lia. lia.
+Qed.
+Lemma run_read {A} d i (k : N -> prog A) : i < len d -> run d (Read i k) = run d (k (byte_at d i)).
+Proof. intros H. cbn [run]. rewrite (rd_byte_at d i H). reflexivity. Qed.
+Lemma run_rd16le {A} d o (k : N -> prog A) : o + 1 < len d -> run d (rd16le o k) = run d (k (g16le d o)).
+Proof. intros H. unfold rd16le, g16le. rewrite run_read by lia. rewrite run_read by lia. reflexivity. Qed.
+Lemma run_rd16be {A} d o (k : N -> prog A) : o + 1 < len d -> run d (rd16be o k) = run d (k (g16be d o)).
+Proof. intros H. unfold rd16be, g16be. rewrite run_read by lia. rewrite run_read by lia. reflexivity. Qed.
+Lemma g16le_lt d o : bytes_ok d = true -> g16le d o < 65536.
+Proof. intros Hb. unfold g16le. pose proof (byte_at_lt d o Hb). pose proof (byte_at_lt d (o + 1) Hb). lia. Qed.
+Lemma completes_bounded {A} n (p : prog A) d :
+  bounded n p -> bytes_ok d = true -> n <= len d -> completes (run d p) = true.
+Proof. intros Hp Hb Hn. destruct (bounded_safe n p Hp d Hb Hn) as [a E]. rewrite E. reflexivity. Qed.
